@@ -1470,7 +1470,14 @@ where
             }
             if sc < 0 {
                 // ongoing resize! can we join the resize transfer?
-                if sc == rs + MAX_RESIZERS || sc == rs + 1 {
+                // NOTE: as in the Java code, `sc` must carry the stamp of _this_ table: it may
+                // also be -1 (read while the table was being initialized, and possibly -1 again
+                // by now because a late `init_table` took the initialization lock), in which
+                // case there is nothing to join
+                if (sc as usize >> RESIZE_STAMP_SHIFT) != (rs as usize >> RESIZE_STAMP_SHIFT)
+                    || sc == rs + MAX_RESIZERS
+                    || sc == rs + 1
+                {
                     break;
                 }
                 let nt = self.next_table.load(Ordering::SeqCst, guard);
